@@ -130,9 +130,22 @@ def fam_c01(tier, seed):
     sks = _number("m", items)
     sks += _number("i", interleaved_family(tier))
     sks += _number("x", cross_reservation_family())
+    sks += _number("d", double_sale_split_family())
     rep = report_level([it for it in items if it[1] == BASES[0]], 4 if tier == "quick" else 5, quick=tier == "quick")
     sks += _number("r", rep, level="report")
     return sks
+
+
+def double_sale_split_family():
+    """two sales, the first identified with a later repurchase, and a split/unsplit between the second sale and that
+    repurchase: the holding check, the claims on the repurchase and the pool live in different units here"""
+    out = []
+    for sx in ("X", "U"):
+        for r in ("2", "3"):
+            out.append(([["B", "A", 0], ["S", "A", 1], ["S", "A", 30], [sx, "A", 30, r], ["B", "A", 31]], BASES[0]))
+            out.append(([["B", "A", 0], ["S", "A", 0], ["S", "A", 1], [sx, "A", 1, r], ["B", "A", 30]], BASES[0]))
+            out.append(([["B", "A", 0], ["S", "A", 1], ["S", "A", 30], [sx, "A", 30, r], ["B", "A", 31], ["S", "A", 31]], BASES[0]))
+    return [(sk.canon_order(l), b) for l, b in out]
 
 
 def bnb_split_event_family():
@@ -148,7 +161,7 @@ def bnb_split_event_family():
 
 
 def fam_c02(tier, seed):
-    items = matching_family(tier, seed, events=("X", "U", "C", "M", "D")) + bnb_split_event_family()
+    items = matching_family(tier, seed, events=("X", "U", "C", "M", "D")) + bnb_split_event_family() + double_sale_split_family()
     sks = _number("m", items)
     sks += _number("i", interleaved_family(tier))
     rep = report_level([it for it in items if it[1] == BASES[0]], 4 if tier == "quick" else 5, quick=tier == "quick")
@@ -162,6 +175,7 @@ def fam_c05(tier, seed):
     b3 = list(sk.bs_family(2, 3, SHORT, need_sell=True))
     res3 = [(l, BASES[0]) for l in sk.with_events(b3, ("X", "U"), [0, 1, 30], ratios=("3",), max_events=1)]
     sks = _number("m", items)
+    sks += _number("d", double_sale_split_family())
     # ... with a concrete witness of EVERY path replayed on the real build
     sks += [mk(i, "z", l, base=b, wit=1) for i, (l, b) in enumerate(res3)]
     sks += _number("i", interleaved_family(tier))
